@@ -16,7 +16,8 @@ META = {
         "keyword is constant-propagated). (b) every tag literal a validator compares against is a tag its resolver can produce (a dead validation branch otherwise). (c) each validator is "
         "abstracted to the capabilities it enforces (non-str-key / dotted-key / non-json-type) and the container kinds it descends through. (d) family agreement: data can enter a tree "
         "through either class of a registry bucket, so both classes of every bucket must enforce the same capabilities, each descending through mappings and sequences; non-str-key "
-        "everywhere; dotted-key iff the bucket's dict class has attribute access. Correctness of validators on all values beyond this structure is NOT decided."
+        "everywhere; dotted-key iff the bucket's dict class has attribute access; (f) every validator's classifier agrees with the conversion's classifiers on which representative types are mappings / "
+        "sequences (a container the validator does not recognise is converted unchecked). Correctness of validators on all values beyond this structure is NOT decided."
     ),
     "rule": "contexts = class x storing entry point x {root,nested} (+ constructor); obligations per storing site; per tag literal; per bucket",
     "trusted_base": ["engine value provenance (symbolic expressions)", "representative-type table of the classifier evaluation"],
@@ -155,6 +156,44 @@ def check_validators(A, rep):
                 rep.fail("C11.b", norm_key("C11.b", f.qualname, lit),
                          f"{f.qualname} compares the classification with '{lit}', which {info.resolver.name} (tags {keys}) never returns: that validation branch is dead "
                          "and the validator does not descend into such values", [f"{f.module.path}:{node.lineno}: {ast.unparse(node.test)}"], f.qualname)
+    # (f) what the conversion accepts as a mapping / sequence, every validator classifies the same way: a validator
+    #     whose classifier does not see a container (e.g. only exact dict) never looks at its keys / elements,
+    #     although _from_base converts it into a synced node.  Decided over all representative types; types the
+    #     converters themselves classify both ways (Mapping and Sequence at once) are left undecided.
+    conv = {}
+    for r in rs:
+        tags_ = [t for t, _ in r.tags]
+        if tags_ == ["MAPPING"]:
+            conv["MAPPING"] = r
+        elif tags_ == ["SEQUENCE"]:
+            conv["SEQUENCE"] = r
+    if len(conv) < 2:
+        raise AnalysisError("anchor: the converters' single-tag MAPPING / SEQUENCE resolvers were not found")
+    vres = {}
+    for f, info in infos.items():
+        if info.resolver is not None:
+            vres.setdefault(info.resolver.name, (info.resolver, []))[1].append(f)
+    for t in REPS:
+        cm = tag_of(m, conv["MAPPING"], t)
+        cs_ = tag_of(m, conv["SEQUENCE"], t)
+        if not (cm[1] and cs_[1]):
+            continue  # instance dependent (numpy arrays): handled by the NUMPY tags of the validators
+        kinds = [k for k, (tg, pure, _) in (("MAPPING", cm), ("SEQUENCE", cs_)) if tg == k]
+        if len(kinds) != 1:
+            continue
+        want = kinds[0]
+        for rn, (r, funcs) in sorted(vres.items()):
+            if want not in [tg for tg, _ in r.tags]:
+                continue
+            tg, pure, poss = tag_of(m, r, t)
+            rep.context(f"{rn} x {t}", True)
+            if pure and tg == want:
+                rep.ok("C11.f")
+            else:
+                rep.fail("C11.f", norm_key("C11.f", rn, t),
+                         f"values of type '{t}' are converted into a synced {'dict' if want == 'MAPPING' else 'list'} (the conversion's classifier says {want}) but the classifier {rn} used by "
+                         f"{', '.join(sorted(f_.qualname for f_ in funcs))} says {tg if pure else poss}: such a value passes validation without its {'keys' if want == 'MAPPING' else 'elements'} being looked at",
+                         [f"{r.module.path}:{r.call.lineno}: {rn} = AbstractTypeResolver(...)"], rn)
     # (c)/(d) capabilities per class and per bucket
     for bucket, classes in sorted(m.registry.items()):
         rep.context(f"bucket {bucket}", True)
